@@ -610,6 +610,17 @@ func (fv *FuncVerifier) evalSpecHelper(fn *types.Func, call *ast.CallExpr, st *S
 			reject("__eq on unmodelled values")
 		}
 		return []Term{eq(a, b)}
+	case "__rm":
+		// the map being ranged over by the n-th enclosing map range loop (it may have no name in the source)
+		tv := fv.info().Types[call.Args[0]]
+		n := 0
+		if tv.Value != nil {
+			fmt.Sscan(tv.Value.ExactString(), &n)
+		}
+		if n < 0 || n >= len(fv.rmStack) {
+			reject("__rm(%d): no such enclosing map range loop", n)
+		}
+		return []Term{fv.rmStack[len(fv.rmStack)-1-n]}
 	case "__ri":
 		tv := fv.info().Types[call.Args[0]]
 		n := 0
